@@ -312,9 +312,25 @@ class FailsMidway:
         raise RuntimeError('cursor lost')
 
 
+class Rows(list):
+    """an ordinary user subclass (instances have a __dict__): still a sequence, its children are its items"""
+
+
+class Pair(tuple):
+    pass
+
+
+class Bag(set):
+    pass
+
+
 def side_targets():
     inner = {'a': 1}
+    rows = Rows([1, {'a': 2}])
+    rows.note = 'an attribute next to the items'
     return {
+        'user-subclasses-of-sequences': {'a': rows, 'b': Pair((3, [4])), 'c': [Rows([{'a': 5}])], 'd': Bag([6])},
+        'user-subclass-root': Rows([{'a': 1}, Rows([2])]),
         'iterable-failing-midway': {'a': FailsMidway({'a': 1}, 2), 'b': [3, FailsMidway(4)], 'c': {'a': 5}},
         'falsy-objects-with-children': {'a': ZeroLen(a=1, k={'a': 2}), 'b': [FalseBool(a=3), ZeroLen()], 'c': FalseBool(k=ZeroLen(a=[4]))},
         'falsy-object-root': ZeroLen(a={'a': 1}, b=FalseBool(a=2)),
